@@ -63,7 +63,21 @@ func w7SameCompact(a, b tlmetadata.Event) bool {
 	if err1 != nil || err2 != nil {
 		return false
 	}
-	return format.SameCompactMetric(va, vb)
+	if !format.SameCompactMetric(va, vb) {
+		return false
+	}
+	// SameCompactMetric does not look at everything the compact form keeps (some descriptions
+	// survive compaction): the documented compaction of both must give the same bytes
+	da, err1 := w7CompactData(va)
+	db, err2 := w7CompactData(vb)
+	return err1 == nil && err2 == nil && da == db
+}
+
+// w7CompactData applies the documented compaction to a parsed metric (which it consumes).
+func w7CompactData(v *format.MetricMetaValue) (string, error) {
+	format.MakeCompactMetric(v)
+	data, err := json.Marshal(v)
+	return string(data), err
 }
 
 // histEvent returns the source's event of that entity with that version.
@@ -114,12 +128,11 @@ func w7IsCompactForm(ev tlmetadata.Event) string {
 	if err != nil {
 		return "compact entry does not parse: " + err.Error()
 	}
-	format.MakeCompactMetric(v)
-	data, err := json.Marshal(v)
+	data, err := w7CompactData(v)
 	if err != nil {
 		return "compact entry does not marshal: " + err.Error()
 	}
-	if string(data) != ev.Data {
+	if data != ev.Data {
 		return fmt.Sprintf("metric entry of a compact journal is not in compact form: have %.200q, compact form is %.200q", ev.Data, string(data))
 	}
 	return ""
@@ -257,6 +270,9 @@ func (w *w7World) checkStorageStep(rep *w7Replica) {
 			if rep.leftNames[d.Name] {
 				sig = "name-reused-after-rename" // another delivered metric held this name and was renamed away
 			}
+			if rep.rebuiltStale[d.Name] {
+				sig += "/after-index-rebuild" // a full rebuild of the name index had handed the name back to the renamed metric's old version
+			}
 			r.Fail(w7Prop, "name_lookup_sole_holder_unreachable", sig,
 				"%s: metric %d is the only delivered metric named %q (v%d) but GetMetaMetricByName(%q) = %s",
 				rep.name, id, d.Name, d.Version, d.Name, w7MetricStr(bn))
@@ -273,13 +289,14 @@ func w7MetricStr(m *format.MetricMetaValue) string {
 }
 
 // finalOracle: faults have stopped and delivery rounds ran until nothing changed. Clauses:
-//   converge_missing / converge_extra / converge_latest_version: every replica holds the
-//     source's latest version of every entity (compact journals: its compact content, no
-//     dashboards and prom configs);
-//   converge_current_version: a full journal's version is the source's version;
-//   state_hash_differs: replicas of the same journal kind have equal state hashes;
-//   storage_by_id / storage_group_assignment / storage_name_lookup / storage_other_entities:
-//     MetricsStorage getters agree with the source.
+//
+//	converge_missing / converge_extra / converge_latest_version: every replica holds the
+//	  source's latest version of every entity (compact journals: its compact content, no
+//	  dashboards and prom configs);
+//	converge_current_version: a full journal's version is the source's version;
+//	state_hash_differs: replicas of the same journal kind have equal state hashes;
+//	storage_by_id / storage_group_assignment / storage_name_lookup / storage_other_entities:
+//	  MetricsStorage getters agree with the source.
 func (w *w7World) finalOracle() {
 	r := w.r
 	src := w.src
@@ -297,7 +314,7 @@ func (w *w7World) finalOracle() {
 				continue
 			}
 			if !ok {
-				r.Fail(w7Prop, "converge_missing", kind+"/"+tn, "%s: %s#%d '%s' (source v%d) is missing after the final delivery rounds", rep.name, tn, key.id, latest.Name, latest.Version)
+				r.Fail(w7Prop, "converge_missing", kind+"/"+tn+w.compactSkewSig(rep, key), "%s: %s#%d '%s' (source v%d) is missing after the final delivery rounds", rep.name, tn, key.id, latest.Name, latest.Version)
 				return
 			}
 			if !rep.compactClass {
@@ -308,7 +325,7 @@ func (w *w7World) finalOracle() {
 				continue
 			}
 			if !w7SameCompact(ev.Event, latest) {
-				r.Fail(w7Prop, "converge_latest_version", kind+"/"+tn+w.compactStaleSig(rep, key, ev.Event, latest),
+				r.Fail(w7Prop, "converge_latest_version", kind+"/"+tn+w.compactSkewSig(rep, key),
 					"%s: holds %s, which is not the compact content of the source's latest %s", rep.name, w7EvFull(ev.Event), w7EvFull(latest))
 				return
 			}
@@ -351,18 +368,14 @@ func (w *w7World) finalOracle() {
 	r.Event("oracle", "final: %d replicas hold %d entities at source version %d", len(w.reps), len(src.keys), src.version)
 }
 
-// compactStaleSig classifies a stale compact entry: does the replica hold an intermediate
-// version while every upstream compact journal keeps an OLDER version with the latest content
-// (the compact journal skipped the latest event because its content equals what it had)?
-func (w *w7World) compactStaleSig(rep *w7Replica, key w7Key, have, latest tlmetadata.Event) string {
-	if !rep.agent {
-		return ""
-	}
-	for _, a := range w.aggs {
-		up, ok := a.compact.j.journal[journalEventID{typ: key.typ, id: key.id}]
-		if ok && up.Version < have.Version && w7SameCompact(up.Event, latest) {
-			return "/upstream-kept-older-version-with-equal-content"
-		}
+// compactSkewSig classifies a missing or stale entity of an agent fed from compact journals:
+// did some compact journal, earlier in the run, drop a delivered event of this entity because
+// its compact content equalled what it had, keeping the older version number? Compact
+// journals then number the same content differently, and an agent that asks "everything after
+// version N" can be skipped over.
+func (w *w7World) compactSkewSig(rep *w7Replica, key w7Key) string {
+	if rep.agent && rep.compactClass && w.skipped[key] {
+		return "/compact-version-skew"
 	}
 	return ""
 }
